@@ -194,6 +194,7 @@ let ops_for (f : fx) ~(m : string) ~(cli : bool) ~(cli_reps : int) =
   rep ~need:3 "remote_dumpall" "-";
   List.iter (fun (d : dbx) -> rep ~need:5 "remote_tables" (string_of_int d.oid)) f.dbs;
   rep ~need:5 "remote_tables_by_name" (hx d0.name);
+  List.iter (fun (d : dbx) -> rep ~need:0 "remote_table_lookup" (hx d.name)) f.dbs;
   rep ~need:2 "remote_databases" "-";
   rep ~need:3 "remote_columns" (hx d1.name ^ "|" ^ hx "docs");
   rep ~need:2 "remote_summary_string" "-";
